@@ -9,9 +9,11 @@ import (
 	"net"
 	"net/netip"
 	"os"
+	"regexp"
 	"runtime"
 	"strings"
 	"sync"
+	"sync/atomic"
 	"syscall"
 	"testing"
 	"testing/synctest"
@@ -219,6 +221,17 @@ func (p *recPlugin) hold(name string) {
 	}
 }
 
+// holdQuiet is hold without the exit event (peer-manager log points).
+func (p *recPlugin) holdQuiet(name string) {
+	p.mu.Lock()
+	p.ncb[name]++
+	ch := p.gates[fmt.Sprintf("%s#%d", name, p.ncb[name])]
+	p.mu.Unlock()
+	if ch != nil {
+		<-ch
+	}
+}
+
 func (p *recPlugin) release(name string) {
 	p.mu.Lock()
 	defer p.mu.Unlock()
@@ -351,6 +364,41 @@ func errClass(err error) string {
 		return "listener"
 	default:
 		return "err"
+	}
+}
+
+// ---------------------------------------------------------------- logger gates
+
+// corebgp calls the application's Logger from the peer-manager goroutine (state
+// transitions, errors).  A Logger that blocks is a gate inside the peer manager.
+var curRun atomic.Pointer[run]
+
+var (
+	reTransition = regexp.MustCompile(`^\[(.+?)\] FSM-(out|in) transition (\w+) => (\w+)$`)
+	reError      = regexp.MustCompile(`^\[(.+?)\] FSM-(out|in) \w+ error:`)
+)
+
+func logDispatch(v ...interface{}) {
+	r := curRun.Load()
+	if r == nil || len(v) == 0 {
+		return
+	}
+	msg, _ := v[0].(string)
+	var addr, name string
+	if m := reTransition.FindStringSubmatch(msg); m != nil {
+		addr = m[1]
+		if m[4] == "disabled" {
+			name = "dis-" + m[2]
+		} else {
+			name = "apv-" + m[2]
+		}
+	} else if m := reError.FindStringSubmatch(msg); m != nil {
+		addr, name = m[1], "err-"+m[2]
+	} else {
+		return
+	}
+	if pl := r.plugins[r.byAddr[addr]]; pl != nil {
+		pl.holdQuiet(name)
 	}
 }
 
@@ -718,6 +766,8 @@ func runScript(t *testing.T, sc scriptJ, w *bufio.Writer) {
 		}
 		corebgp.VerifSetDialHook(r.dialHook)
 		defer corebgp.VerifSetDialHook(nil)
+		curRun.Store(r)
+		defer curRun.Store(nil)
 
 		closed := false
 		for i, st := range sc.Steps {
@@ -790,6 +840,7 @@ func runScript(t *testing.T, sc scriptJ, w *bufio.Writer) {
 
 // RunFile executes every script of an ndjson file and writes the trace file.
 func RunFile(t *testing.T, in, out string) {
+	corebgp.SetLogger(logDispatch)
 	f, err := os.Open(in)
 	if err != nil {
 		t.Fatal(err)
